@@ -52,6 +52,9 @@ pub struct Inner {
 
 thread_local! {
     static WORKER: Cell<Option<usize>> = const { Cell::new(None) };
+    /// the execution this worker thread belongs to: a thread leaked by an abandoned (deadlocked / hung) execution must
+    /// never touch the state of a later one
+    static MINE: std::cell::RefCell<Option<Arc<Inner>>> = const { std::cell::RefCell::new(None) };
     /// set while this thread runs the monitor inside a decision: its own lock / filesystem calls are not scheduling points
     static IN_MONITOR: Cell<bool> = const { Cell::new(false) };
 }
@@ -61,7 +64,9 @@ static ACTIVE: Mutex<Option<Arc<Inner>>> = Mutex::new(None);
 pub static EVENT_LOG: Mutex<Vec<(usize, String, bool, i64, i32)>> = Mutex::new(Vec::new());
 
 fn active() -> Option<Arc<Inner>> {
-    ACTIVE.lock().unwrap().clone()
+    let mine = MINE.with(|m| m.borrow().clone())?;
+    let cur = ACTIVE.lock().unwrap().clone()?;
+    if Arc::ptr_eq(&mine, &cur) { Some(mine) } else { None }
 }
 
 /// The scheduling decision. Runs under the scheduler mutex in whichever thread just parked or finished (or in
@@ -305,6 +310,7 @@ pub fn run_schedule(root: &std::path::Path, bodies: Vec<Body>, prefix: &[usize],
         let inner2 = inner.clone();
         handles.push(std::thread::spawn(move || {
             WORKER.with(|w| w.set(Some(id)));
+            MINE.with(|m| *m.borrow_mut() = Some(inner2.clone()));
             shim::participate(true);
             yield_here("start".into(), None);
             let _ = std::panic::catch_unwind(std::panic::AssertUnwindSafe(body));
@@ -320,6 +326,7 @@ pub fn run_schedule(root: &std::path::Path, bodies: Vec<Body>, prefix: &[usize],
             }
             drop(st);
             WORKER.with(|w| w.set(None));
+            MINE.with(|m| *m.borrow_mut() = None);
         }));
     }
     // first decision once every worker is parked at its start point; then wait for the end of the execution
